@@ -12,6 +12,7 @@ Records are dicts with the field names of Appendix A.
 # type flags
 TF_GLOBAL = 0x1
 TF_FULLY_DEFINED = 0x2000
+TF_UNPUBLISHED = 0x100000
 TF_TYPEDEF = 0x200000
 TF_ARRAY = 0x400000
 FF_CONSTRUCTOR = 0x100
